@@ -25,6 +25,13 @@ no has_finished, no function call: whatever `call_native` or a helper frame woul
 per-fiber record of the native arity, which is stale after a call answered by the callee RETURNING - YV.FiberArityProofs),
 every switch with / without a value, random per-gap decorations; random programs of style `bare`; ALL mini-language programs
 also run in the release build with gc=always + a collection after the run + freed memory quarantined.
+(g) round 9, stack-capacity scale family (props/c09_r9.py): recursion D deep (<= 63 frames) x L locals per activation (1..250) at
+module level / in a fiber / in a fiber called by a fiber / suspended at the bottom / three fibers deep at once / chains of up to
+33 fibers, closed-form oracle: every fiber has the capacity of the fiber that runs the program;
+(h) round 9, finally x fiber switch (props/c09_r9.py): one interpreter of the compiler's handler instructions in two modes - flag
+per fiber (Spec) / one flag per VM (vm.rs) - the open class finally_switch_shares_flag is COMPUTED (the modes differ); outside it
+the implementation must equal the Spec, inside it the one-flag mechanism, in every cell of finally entered by exception / return /
+normally x calls a fiber that returns / yields / throws / ... x what follows.
 The model is evaluated with the shape constant passed as a literal (not through YVGen.FiberArms): when the translator no
 longer recognises a switch function the dynamic part still runs and produces the failing input."""
 import json
@@ -47,7 +54,8 @@ ASSUMPTIONS = [
     "the interpreter's cached registers (ip, active_chunk, active_module, unsafe_fiber) are not state of M: "
     "checked dynamically (fiber_ptr_ok, dev trace == release trace), proved in C10",
     "no yarel value denotes the root fiber (vs_call excludes fiber 0)",
-    "`finally` is outside the Coq mini-language; its family uses hand-derived expectations",
+    "`finally` is outside the Coq mini-language; family (c) uses hand-derived expectations, family (h) two Python interpreters "
+    "(props/c09_r9.py: flag per fiber = Spec, one flag per VM = vm.rs) that are trusted, validated against the unchanged tree",
     "ObjFiber.native_arity is not state of M: sound while only the natives' argument accessors read it (regenerated side "
     "condition C09_side_arity_scope; YV.FiberArity models the record: fresh inside a native, stale outside)",
 ]
@@ -758,7 +766,9 @@ FIN_PRELUDE = "var f1 = nil; var f2 = nil; "
 
 
 def finally_family():
-    """(source, expected result, in_known_class): a fiber keeps its own pending exception across suspensions.
+    """(source, expected result, in_known_class, what the ONE-flag mechanism prints): a fiber keeps its own pending exception
+    across suspensions.  Round 9: a program of the known class must print exactly what the one-flag mechanism prints (4th
+    component); anything else is a NEW violation (the class no longer hides other misbehaviour in its neighbourhood).
     The VM keeps ONE handling_exception flag: a switch inside a finally block exposes it to another fiber."""
     fam = []
     for a, b in ((1, 9), (4, 6)):
@@ -767,31 +777,32 @@ def finally_family():
                     "f1 = Fiber.new(|| { try { print(%d); } finally { print(11); Fiber.yield(12); print(13); } print(14); return 15; }); " % a +
                     "f2 = Fiber.new(|| { try { throw %d; } catch e { print(e); } print(21); return 22; }); " % b +
                     "print(f1.call()); print(f2.call()); print(f1.call());",
-                    "%d|11|12|%d|21|22|13|14|15#ok" % (a, b), False))
+                    "%d|11|12|%d|21|22|13|14|15#ok" % (a, b), False, None))
         # finally entered BY EXCEPTION yields; another fiber completes a try/finally normally in between:
         # that fiber must not see an exception; the first fiber re-raises its own after being resumed
         fam.append((FIN_PRELUDE +
                     "f1 = Fiber.new(|| { try { throw %d; } finally { print(11); Fiber.yield(12); print(13); } print(14); return 15; }); " % a +
                     "f2 = Fiber.new(|| { try { print(20); } finally { print(21); } print(22); return 23; }); " +
                     "print(f1.call()); print(f2.call()); print(24); print(f1.call());",
-                    "11|12|20|21|22|23|24|13#Unhandled exception: %d" % a, True))
+                    "11|12|20|21|22|23|24|13#Unhandled exception: %d" % a, True,
+                    "11|12|20|21#Unhandled exception: <fn lambda-1 @ 0xA>"))
         # ... another fiber throws and catches in between: the pending exception of the first must survive
         fam.append((FIN_PRELUDE +
                     "f1 = Fiber.new(|| { try { throw %d; } finally { print(11); Fiber.yield(12); print(13); } print(14); return 15; }); " % a +
                     "f2 = Fiber.new(|| { try { throw %d; } catch e { print(e); } return 23; }); " % b +
                     "print(f1.call()); print(f2.call()); print(f1.call()); print(25);",
-                    "11|12|%d|23|13#Unhandled exception: %d" % (b, a), True))
+                    "11|12|%d|23|13#Unhandled exception: %d" % (b, a), True, "11|12|%d|23|13|14|15|25#ok" % b))
         # a fiber suspended in a finally block entered by exception; the main script's own try/finally completes normally
         fam.append((FIN_PRELUDE +
                     "f1 = Fiber.new(|| { try { throw %d; } finally { Fiber.yield(12); } return 15; }); " % a +
                     "print(f1.call()); try { print(30); } finally { print(31); } print(32);",
-                    "12|30|31|32#ok", True))
+                    "12|30|31|32#ok", True, "12|30|31#Unhandled exception: <script @ 0xA>"))
         # finally that CALLS another fiber (which throws and catches) while an exception is pending
         fam.append((FIN_PRELUDE +
                     "f2 = Fiber.new(|| { try { throw %d; } catch e { print(e); } return 23; }); " % b +
                     "f1 = Fiber.new(|| { try { throw %d; } finally { print(f2.call()); } return 15; }); " % a +
                     "print(f1.call()); print(26);",
-                    "%d|23#Unhandled exception: %d" % (b, a), True))
+                    "%d|23#Unhandled exception: %d" % (b, a), True, "%d|23|15|26#ok" % b))
     return fam
 
 
@@ -1514,20 +1525,84 @@ def run(ctx, directed=False):
 
     # --- the finally family
     fin = finally_family() if not ctx.replay_only and not directed else []
-    fr = run_robust(dbg, ["run - " + hx(s) for s, _, _ in fin], case_timeout_ms=5000)
+    fr = run_robust(dbg, ["run - " + hx(x[0]) for x in fin], case_timeout_ms=5000)
     fin_known = 0
-    for (src, exp, known), r in zip(fin, fr):
+    for (src, exp, known, mexp), r in zip(fin, fr):
         got = impl_result(r)
         # addresses in messages are masked
         import re
         got_m = re.sub(r"0x[0-9a-f]+", "0xA", got)
         if got_m != exp:
-            if known:
+            if known and got_m == mexp:
                 fin_known += 1
                 ctx.violation("a fiber switch inside a finally block lets another fiber see (or clear) the pending exception",
                               input=src, expected=exp, actual=got_m, known_class="finally_switch_shares_flag")
             else:
                 ctx.violation("finally block with a fiber switch misbehaves outside the known class", input=src, expected=exp, actual=got_m)
+
+    # --- round 9, family (g): every fiber has the capacity of the fiber that runs the program (scale family, closed-form oracle)
+    #      and family (h): finally x fiber switch with the class predicate COMPUTED by two executable models (props/c09_r9.py)
+    from props import c09_r9
+    raw = []     # (family, name, source, expected S, expected M)
+    if ctx.replay_only and ctx.replay_only.get("rawsrc"):
+        rp = ctx.replay_only["rawsrc"]
+        raw.append((rp["family"], rp["name"], rp["src"], rp["S"], rp["M"]))
+    elif not ctx.replay_only:
+        for name, src, exp in c09_r9.stack_family(quick):
+            raw.append(("stack-scale", name, src, exp, exp))
+        for name, prog, src, sres, mres in c09_r9.finally_model_family(rng, 250 if quick else 2500):
+            raw.append(("finally-switch", name, src, sres, mres))
+    t0 = time.time()
+    raw_d = run_robust(dbg, ["run - " + hx(x[2]) for x in raw], case_timeout_ms=20000)
+    raw_r = run_robust(rel, ["run - " + hx(x[2]) for x in raw], case_timeout_ms=20000)
+    log("[C09] %d stack-scale / finally-switch programs x 2 builds in %.1fs" % (len(raw), time.time() - t0))
+    raw_stat = {"stack-scale": 0, "finally-switch": 0, "finally-switch in the computed class (M != S)": 0, "known": 0, "new": 0}
+    raw_new = []
+    for (fam, name, src, sres, mres), rd, rr in zip(raw, raw_d, raw_r):
+        raw_stat[fam] += 1
+        gd, gr = impl_result(rd), impl_result(rr)
+        extra = {"family": fam, "rawsrc": {"family": fam, "name": name, "src": src, "S": sres, "M": mres}}
+        if sres == mres:
+            bad = [(b, g) for b, g in (("debug", gd), ("release", gr)) if g != sres]
+            if bad:
+                raw_new.append((len(src), fam, name, src, sres, bad, extra))
+        else:
+            raw_stat["finally-switch in the computed class (M != S)"] += 1
+            # inside the open class: the debug build must do exactly what the one-flag mechanism does; the optimised build may
+            # differ from it (the re-raised slot is whatever lies on the stack) but a result equal to neither model in BOTH
+            # builds, or the Spec's result in one of them, is not what the known finding describes
+            if gd == mres:
+                raw_stat["known"] += 1
+                if raw_stat["known"] <= 1:
+                    ctx.violation("a fiber switch inside a finally block lets another fiber see (or clear) the pending exception "
+                                  "(class predicate computed: one flag per VM vs one per fiber give different results)",
+                                  input=src, expected=sres, actual=gd, known_class="finally_switch_shares_flag", **extra)
+            elif gd == sres and gr == sres:
+                ctx.corr_broken.append("finally x fiber switch: the implementation agrees with the per-fiber Spec where the one-flag "
+                                       "mechanism model predicts the known defect (repaired? update c09_r9.interp): " + src[:400])
+            else:
+                raw_new.append((len(src), fam, name, src, mres, [("debug", gd)], extra))
+    raw_new.sort(key=lambda x: x[0])
+    raw_stat["new"] = len(raw_new)
+    seen_f = {}
+    for _, fam, name, src, exp, bad, extra in raw_new:
+        if seen_f.get(fam, 0) >= 2:
+            continue
+        seen_f[fam] = seen_f.get(fam, 0) + 1
+        if fam == "stack-scale":
+            what = ("a fiber does not keep its own call stack and locals at scale: recursion within the documented limits "
+                    "(<= 64 frames x <= 256 slots) gives a different result inside a fiber than the closed form / the same code at "
+                    "module level [%s] (%s build)" % (name, bad[0][0]))
+        elif extra["rawsrc"]["S"] == extra["rawsrc"]["M"]:
+            what = ("finally block x fiber switch, OUTSIDE the open class finally_switch_shares_flag (one flag per VM and one flag "
+                    "per fiber give the same result): the pending exception / return of the calling fiber is not kept [%s] (%s build)"
+                    % (name, bad[0][0]))
+        else:
+            what = ("finally block x fiber switch inside the open class: the result is neither the Spec's nor what the one-flag "
+                    "mechanism (vm.rs handling_exception) produces [%s] (%s build)" % (name, bad[0][0]))
+        ctx.violation(what, input=src, expected=exp, actual=bad[0][1], **extra)
+    if len(raw_new) > 4:
+        notes.append("%d stack-scale / finally-switch programs differ in all" % len(raw_new))
 
     # --- family (d): fresh heap objects in every piece of per-fiber state across suspensions with allocation in between
     if ctx.replay_only and ctx.replay_only.get("heap"):
@@ -1603,7 +1678,7 @@ def run(ctx, directed=False):
 
     sample_i = next((i for i in idx if cases[i][2] == "random" and cases[i][1] and nontrivial(cases[i][1])), idx[0] if idx else None)
     ctx.cov.update({
-        "evaluations": 2 * len(idx) + len(tsel) * 2 + len(fin) + 2 * len(hspecs) + 2 * len(mspecs),
+        "evaluations": 2 * len(idx) + len(tsel) * 2 + len(fin) + 2 * len(hspecs) + 2 * len(mspecs) + 2 * len(raw),
         "release_runs_of_minilanguage_programs": len(idx),
         "back_to_back_family": {"programs": fam_count.get("bare", 0),
                                 "bound": "EVERY switch sequence, nothing between two switches of a fiber: quick 2 fibers <= 5 (4 fixed + 1 random "
@@ -1627,6 +1702,7 @@ def run(ctx, directed=False):
         "switch_events_compared": n_sw,
         "release_traces_equal_dev": n_tr - cfg_bad,
         "finally_family": {"programs": len(fin), "in_known_class_failing": fin_known},
+        "round9_families": raw_stat,
         "heap_state_family": {"programs": len(hspecs), "runs": 2 * len(hspecs), "differing": len(hbad), "shapes": hshapes,
                               "modes": ["debug + quarantine (collects at every allocation)", "release gc=always + quarantine"]},
         "poke_nil_on_resume": poke_nil,
